@@ -4,21 +4,25 @@ Requests (model part first, implementation-only parameters after it):
   key <K|H> <kind> <ops> <secret hex> <network> <chain hex> <fmt>
   wk  <kind> <ops> <seed hex> <network>
   wallet <kind> <seed hex> <network>              (scan only)
-  dbfile <seed hex> <network>                     (scan of the raw sqlite bytes; meaning depends on the environment)
+  dbfile <seed hex> <network> [conf,conf,... [wt]] (scan of the raw sqlite bytes; meaning depends on the environment)
+  wal <conf> <ops> <seed hex> <network> <witness type> <flags>
+        wallet CONFIGURATION x HISTORY x every public-view entry point.  conf: master | acctprv | acctpub | single |
+        singlepub, or ms:<c0>+<c1>[+<c2>]:<own cosigner id>.  Response tokens (compared with the wallet model):
+        <ok|err>:<output taint>:<codes of wallet.main_key[/per cosigner wallet]>:<codes of the returned WalletKeys|->
 Response: "<state tokens as the driver prints them> ## <leaks or ->"
 
 A state token is  <ok|err>:<output taint P|S|->:<compressed 0|1>:<one code per attribute A|N|P|S>  where S means
 "an encoding of a secret exponent known to the harness occurs in the value" (found by SCANNING the real value, see
 needles()).  The leak list is the independent property-level scan: every default export after every step, and
 for public views additionally pickle / deepcopy+walk / info() / as_dict(include_private=True)."""
-import sys, os, io, json, copy, pickle, hashlib, logging, contextlib
+import sys, os, io, re, json, copy, hmac, pickle, hashlib, logging, contextlib
 sys.path.insert(0, os.path.dirname(os.path.abspath(__file__)))
 logging.disable(logging.CRITICAL)
 from bitcoinlib.keys import Key, HDKey, Address
 from bitcoinlib.networks import NETWORK_DEFINITIONS
 
-KEY_FIELDS = ["_address_obj", "_hash160", "_public_uncompressed_byte", "_public_uncompressed_hex", "_wif", "_wif_prefix",
-              "_x", "_y", "compressed", "is_private", "key_format", "network", "private_byte", "private_hex",
+KEY_FIELDS = ["_address_obj", "_hash160", "_public_uncompressed_byte", "_public_uncompressed_hex", "_wif", "_wif_compressed",
+              "_wif_prefix", "_x", "_y", "compressed", "is_private", "key_format", "network", "private_byte", "private_hex",
               "public_byte", "public_compressed_byte", "public_compressed_hex", "public_hex", "secret",
               "x_bytes", "x_hex", "y_bytes", "y_hex"]
 HD_FIELDS = KEY_FIELDS + ["chain", "child_index", "depth", "encoding", "key_hex", "key_type", "multisig",
@@ -44,9 +48,26 @@ def b58check(payload):
     return '1' * pad + s
 
 
-WIF_PREFIXES = sorted({bytes.fromhex(nw['prefix_wif']) for nw in NETWORK_DEFINITIONS.values()})
+# FROZEN protocol constants (Bitcoin Core / Litecoin Core / Dogecoin Core chainparams SECRET_KEY and EXT_SECRET_KEY,
+# SLIP-0132 private version bytes, plus the private rows of the library's own bitcoinlib_test network at the time of
+# writing).  The needles are built for the UNION of this list and the table the library has loaded: an edited or
+# removed row in networks.json does not blind the scan, and a row added there is searched for as well.
+FROZEN_WIF_PREFIXES = ['80', '99', '9e', 'b0', 'ef', 'f1']
+FROZEN_XPRV_PREFIXES = ['019d9cfe', '01b26792', '024285b5', '02575048', '0295b005', '02aa7a99', '02fac398', '04358394',
+                        '0436ef7d', '044a4e28', '045f18bc', '0488ade4', '049d7878', '04b2430c', '2fffaddd', '2fffb300',
+                        '2fffb500', '2fffb900', '2fffba00']
+WIF_PREFIXES = sorted({bytes.fromhex(nw['prefix_wif']) for nw in NETWORK_DEFINITIONS.values()}
+                      | {bytes.fromhex(p) for p in FROZEN_WIF_PREFIXES})
 XPRV_PREFIXES = sorted({bytes.fromhex(r[0]) for nw in NETWORK_DEFINITIONS.values() for r in nw['prefixes_wif']
-                        if r[2] == 'private'})
+                        if r[2] == 'private'} | {bytes.fromhex(p) for p in FROZEN_XPRV_PREFIXES})
+B58_RUN = re.compile(('[%s]{48,120}' % B58).encode())
+
+
+def b58decode(tok):
+    n = 0
+    for ch in tok:
+        n = n * 58 + B58.index(chr(ch))
+    return n.to_bytes((n.bit_length() + 7) // 8, 'big')
 
 
 def default_wt(network):
@@ -60,11 +81,13 @@ class Secrets:
 
     def __init__(self):
         self.needles = {}          # bytes -> label
+        self.raw = set()           # the 32-byte exponents themselves
 
     def add(self, secret_int, hd=None):
         if not secret_int:
             return
         b = secret_int.to_bytes(32, 'big')
+        self.raw.add(b)
         n = self.needles
         n.setdefault(b, 'raw32')
         n.setdefault(b[::-1], 'raw32-le')            # pickled Python ints are little-endian
@@ -92,11 +115,28 @@ class Secrets:
                 hd = (k.depth, k.parent_fingerprint, k.child_index, k.chain)
             self.add(k.secret, hd)
 
-    def find(self, blob):
+    def find(self, blob, extra=True):
         for nd, label in self.needles.items():
-            if nd in blob:
+            if nd in blob and (extra or label != 'bip38'):
                 return label
+        # any base58 token (WIF / extended key with WHATEVER version bytes and metadata) that decodes to bytes
+        # containing a secret exponent
+        for m in B58_RUN.finditer(blob):
+            try:
+                d = b58decode(m.group(0))
+            except Exception:
+                continue
+            for b in self.raw:
+                if b in d:
+                    return 'base58-token'
         return None
+
+    def add_text(self, text, label):
+        self.needles.setdefault(text.encode(), label)
+
+    def merge(self, other):
+        self.needles.update(other.needles)
+        self.raw |= other.raw
 
 
 def flatten(o, out, seen, depth=0):
@@ -200,6 +240,16 @@ def make_key(cls, kind, secret, network, chain, fmt):
                 return HDKey(x, network=network)
             if fmt == 'bin':
                 return HDKey(b + ch, network=network, witness_type=wt)
+            if fmt == 'single':
+                return HDKey(key=b, chain=ch, network=network, witness_type=wt, key_type='single')
+            if fmt == 'ms':
+                return HDKey(key=b, chain=ch, network=network, witness_type=wt, multisig=True)
+            if fmt == 'p2sh':
+                return HDKey(key=b, chain=ch, network=network, witness_type='p2sh-segwit' if wt == 'segwit' else wt)
+            if fmt == 'deep':
+                # a key that already sits at account depth (depth 3, hardened index)
+                return HDKey(key=b, chain=ch, network=network, witness_type=wt, depth=3, parent_fingerprint=b'\x12\x34\x56\x78',
+                             child_index=0x80000000)
             return HDKey(key=b, chain=ch, network=network, witness_type=wt)
         if kind == 'priv0':
             return HDKey(Key(s, network=network, compressed=False), chain=ch, network=network, witness_type='legacy')
@@ -220,6 +270,10 @@ def apply_op(o, op, sec, idx):
     hd = isinstance(o, HDKey)
     if op == 'Wif':
         return o, (o.wif_key() if hd else o.wif())
+    if op == 'WifAlt':
+        # the WIF for the version byte of ANOTHER network (explicit prefix argument)
+        other = [p for p in WIF_PREFIXES if p != o.network.prefix_wif][idx % (len(WIF_PREFIXES) - 1)]
+        return o, (o.wif_key(prefix=other) if hd else o.wif(prefix=other))
     if op == 'Address':
         return o, o.address()
     if op == 'AddressUnc':
@@ -243,7 +297,9 @@ def apply_op(o, op, sec, idx):
     if op == 'Str':
         return o, str(o)
     if op == 'Encrypt':
-        return o, o.encrypt('verif-password')
+        v = o.encrypt('verif-password')
+        sec.add_text(v, 'bip38')              # the encrypted private key is private material as well
+        return o, v
     if op == 'Public':
         return o.public(), None
     if op == 'DeepCopy':
@@ -261,9 +317,15 @@ def apply_op(o, op, sec, idx):
     if op == 'ChildPub':
         return o.child_public(idx), None
     if op == 'PublicMaster':
+        # default arguments, another account, the multisig form, another witness type
+        kw = [{}, {'account_id': idx}, {'multisig': True}, {'witness_type': 'p2sh-segwit'}][idx % 4]
+        if default_wt(o.network.name) != 'segwit' or o.witness_type == 'legacy' or not o.compressed:
+            kw = {k: v for k, v in kw.items() if k == 'account_id'}
         if o.is_private:
-            sec.add_key(o.public_master(as_private=True))
-        return o.public_master(), None
+            sec.add_key(o.public_master(as_private=True, **kw))
+        if kw.get('multisig') and idx % 8 == 2:
+            return o.public_master_multisig(), None
+        return o.public_master(**kw), None
     raise ValueError('op ' + op)
 
 
@@ -357,7 +419,8 @@ def do_key(t):
         if status == 'ok' and op in ('Public', 'ChildPub', 'PublicMaster'):
             is_public = True
         if status == 'ok' and op not in NO_EXPORT:
-            out = 'S' if sec.find(blob_of(val)) else 'P'
+            # (BIP38 encryption is a one-way step of the model: the value encrypt() itself returns is not a leak)
+            out = 'S' if sec.find(blob_of(val), extra=op != 'Encrypt') else 'P'
         else:
             out = '-'
         toks.append(token(status, out, o, fields, sec))
@@ -576,10 +639,339 @@ def do_wallet(t):
     return 'ok control=%s ## %s' % (control, ' | '.join(leaks) if leaks else '-')
 
 
+# ------------------------------------------------------------------ wallet CONFIGURATIONS x HISTORIES x VIEWS
+SIMPLE_CONFS = ('master', 'acctprv', 'acctpub', 'single', 'singlepub')
+WAL_EXPORT_OPS = {'MainKey', 'MainWif', 'MainWifKey', 'MainEncrypt', 'SrcKey', 'PmKey', 'Wif0', 'Wif1', 'AsDict0', 'AsDict1', 'AsJson0',
+                  'AsJson1', 'Info', 'Repr'}
+WAL_OTHER_OPS = {'GetKey', 'NewKey', 'Sign', 'NewAccount', 'NewKeyNet', 'NewKeyWt', 'ImportKey'}
+WAL_PUBLIC_OPS = {'PmKey', 'Wif0', 'AsDict0', 'AsJson0', 'Info', 'Repr', 'Keys', 'Pm0', 'MainPublic'}
+
+
+def conf_key(conf, seedbytes, network, wt, multisig, sec):
+    """the key handed to Wallet.create for one configuration; every secret that exists is registered."""
+    m = HDKey.from_seed(seedbytes, network=network, witness_type=wt, multisig=multisig)
+    i64 = hmac.new(b'Bitcoin seed', seedbytes, hashlib.sha512).digest()        # BIP32 master, computed independently
+    sec.add(int.from_bytes(i64[:32], 'big'), (0, b'\0\0\0\0', 0, i64[32:]))
+    sec.add_key(m)
+    if conf == 'master':
+        return m
+    if conf in ('acctprv', 'acctpub'):
+        a = m.public_master(as_private=True)
+        sec.add_key(a)
+        return a if conf == 'acctprv' else m.public_master()
+    if conf in ('single', 'singlepub'):
+        k = HDKey(key=m.private_byte, chain=m.chain, network=network, witness_type=wt, multisig=multisig, key_type='single')
+        sec.add_key(k)
+        return k if conf == 'single' else k.public()
+    raise ValueError('conf ' + conf)
+
+
+def make_conf_wallet(conf, seed, network, wt, flags, uri=None):
+    from bitcoinlib.wallets import Wallet
+    _wallet_n[0] += 1
+    name = 'c%d_%d' % (os.getpid(), _wallet_n[0])
+    uri = uri or db_uri()
+    sec = Secrets()
+    sb = bytes.fromhex(seed)
+    if conf.startswith('ms:'):
+        _, cs, own = conf.split(':')
+        cs = cs.split('+')
+        keys = None
+        # the keys are handed over in an order that sort_keys=True keeps, so cosigner ids are those of the request
+        for attempt in range(400):
+            s2 = Secrets()
+            ks = [conf_key(c, hashlib.sha256(sb + bytes([i, attempt % 256, attempt // 256])).digest()[:16], network, wt,
+                           True, s2) for i, c in enumerate(cs)]
+            if [k.public_byte for k in ks] == sorted(k.public_byte for k in ks):
+                keys = ks
+                sec.merge(s2)
+                break
+        if 'w' in flags:
+            keys = [k.wif(is_private=k.is_private, multisig=True) if k.key_type != 'single' else k for k in keys]
+        w = Wallet.create(name, keys=keys, sigs_required=2 if 'n' not in flags else len(cs), network=network,
+                          witness_type=wt, cosigner_id=int(own), db_uri=uri)
+    elif 'i' in flags and conf == 'master':
+        # a watch-only wallet (public account key) that gets its private master key imported afterwards
+        m = conf_key('master', sb, network, wt, False, sec)
+        sec.add_key(m.public_master(as_private=True))
+        w = Wallet.create(name, keys=m.public_master(), network=network, witness_type=wt, db_uri=uri)
+        w.get_key()
+        w.import_master_key(m)
+    elif 'm' in flags and conf == 'master':
+        # passphrase + password: BIP39 seed and BIP32 master computed here from the specification (stdlib only)
+        from bitcoinlib.mnemonic import Mnemonic
+        phrase = Mnemonic().to_mnemonic(sb)
+        pw = 'pw ' + seed[:6]
+        sd = hashlib.pbkdf2_hmac('sha512', phrase.encode(), b'mnemonic' + pw.encode(), 2048)
+        i64 = hmac.new(b'Bitcoin seed', sd, hashlib.sha512).digest()
+        sec.add(int.from_bytes(i64[:32], 'big'), (0, b'\0\0\0\0', 0, i64[32:]))
+        w = Wallet.create(name, keys=phrase, password=pw, network=network, witness_type=wt, db_uri=uri)
+    else:
+        k = conf_key(conf, sb, network, wt, False, sec)
+        if 'w' in flags and conf not in ('single', 'singlepub'):
+            k = k.wif(is_private=k.is_private)
+        w = Wallet.create(name, keys=k, network=network, witness_type=wt, db_uri=uri,
+                          scheme='single' if conf in ('single', 'singlepub') else 'bip32')
+    wallet_secrets(w, sec)
+    return w, sec, name, uri
+
+
+def aslist(x):
+    return x if isinstance(x, list) else [x]
+
+
+def wal_main_codes(w, sec):
+    ws = w.cosigner if (w.multisig and w.cosigner) else [w]
+    return '/'.join(''.join(code_of(c.main_key, a, sec, a in HANDLES) for a in WK_FIELDS) if c.main_key is not None
+                    else 'none' for c in ws)
+
+
+def wk_graph(x):
+    """everything reachable from a WalletKey presented as public, database handles excluded; the nested HDKey
+    also through pickle, deepcopy and its own default exports."""
+    out = [{a: v for a, v in x.__dict__.items() if a not in HANDLES}, repr(x), str(x), x.as_dict(), x.wif]
+    c = copy.deepcopy(x)
+    out.append({a: v for a, v in c.__dict__.items() if a not in HANDLES})
+    h = x.__dict__.get('_hdkey_object')
+    for k in (h if isinstance(h, list) else [h]):
+        if isinstance(k, Key):
+            out += [pickle.dumps(k), pickle.dumps(k, protocol=0), copy.deepcopy(k).__dict__, repr(k), str(k),
+                    k.as_dict(), k.as_json()]
+    return out
+
+
+def hd_view_graph(k):
+    """a Key / HDKey presented as public: attributes, pickle, deep copy, every export (the explicit private ones too:
+    on a public view they have nothing to export)."""
+    out = [k.__dict__, pickle.dumps(k), pickle.dumps(k, protocol=0), copy.deepcopy(k).__dict__, repr(k), str(k)]
+    for f in (lambda: k.as_dict(), lambda: k.as_json(), lambda: captured(k.info), lambda: k.wif(),
+              lambda: k.wif_public(), lambda: k.as_dict(include_private=True), lambda: k.wif(is_private=True),
+              lambda: k.wif_private(), lambda: k.address(), lambda: k.address_obj.as_dict(),
+              lambda: repr(k.address_obj), lambda: k.public().__dict__):
+        try:
+            out.append(f())
+        except Exception:
+            pass
+    try:
+        k2 = copy.deepcopy(k)
+        k2.network_change('litecoin' if k.network.name != 'litecoin' else 'bitcoin')
+        out += [k2.__dict__, k2.as_dict(), repr(k2), k2.wif(), pickle.dumps(k2)]
+    except Exception:
+        pass
+    return out
+
+
+def wal_apply(w, op, sec, name, uri):
+    """one step of a wallet history: (wallet, exported value, returned WalletKeys or None)."""
+    from bitcoinlib.wallets import Wallet
+    tgt = w
+    if op[0] == 'c' and '.' in op:
+        i, op = op[1:].split('.')
+        tgt = w.cosigner[int(i)]
+    if op == 'MainKey':
+        return w, tgt.main_key.key(), None
+    if op == 'MainWif':
+        return w, tgt.main_key.key().wif_private(), None
+    if op == 'MainWifKey':
+        k = tgt.main_key.key()
+        other = [p for p in WIF_PREFIXES if p != k.network.prefix_wif][0]
+        return w, [k.wif_key(), k.wif_key(prefix=other), k.wif(is_private=True, prefix=XPRV_PREFIXES[0])], None
+    if op == 'MainEncrypt':
+        v = tgt.main_key.key().encrypt('verif-password')
+        sec.add_text(v, 'bip38')
+        return w, v, None
+    if op == 'SrcKey':
+        return w, [x.key() for x in aslist(tgt.public_master(as_private=True))], None
+    if op == 'MainPublic':
+        return w, None, [tgt.main_key.public()]
+    if op in ('Pm0', 'Pm1'):
+        return w, None, aslist(tgt.public_master(as_private=op == 'Pm1') if op == 'Pm1' else tgt.public_master())
+    if op == 'PmKey':
+        return w, [x.key() for x in aslist(tgt.public_master())], None
+    if op in ('Wif0', 'Wif1'):
+        return w, (tgt.wif(is_private=True) if op == 'Wif1' else tgt.wif()), None
+    if op in ('AsDict0', 'AsDict1'):
+        return w, (tgt.as_dict(include_private=True) if op[-1] == '1' else tgt.as_dict()), None
+    if op in ('AsJson0', 'AsJson1'):
+        return w, (tgt.as_json(include_private=True) if op[-1] == '1' else tgt.as_json()), None
+    if op == 'Info':
+        return w, captured(lambda: tgt.info(detail=5)), None
+    if op == 'Repr':
+        return w, [repr(tgt), str(tgt)], None
+    if op == 'GetKey':
+        return w, tgt.get_key().as_dict(), None
+    if op == 'NewKey':
+        return w, tgt.new_key().as_dict(), None
+    if op == 'Keys':
+        return w, [tgt.keys(as_dict=True), tgt.keys_addresses(as_dict=True), tgt.addresslist()], None
+    if op == 'NewAccount':
+        return w, tgt.new_account().as_dict(), None
+    if op == 'NewKeyNet':
+        other = {'bitcoin': 'litecoin', 'litecoin': 'bitcoin', 'testnet': 'litecoin_testnet', 'litecoin_testnet': 'testnet',
+                 'bitcoinlib_test': 'bitcoin', 'regtest': 'testnet', 'signet': 'testnet', 'testnet4': 'testnet'}
+        return w, tgt.new_key(network=other[tgt.network.name]).as_dict(), None
+    if op == 'NewKeyWt':
+        wt2 = [x for x in ('legacy', 'p2sh-segwit', 'segwit') if x != tgt.witness_type][len(tgt.keys()) % 2]
+        return w, tgt.new_key(witness_type=wt2).as_dict(), None
+    if op == 'ImportKey':
+        ik = HDKey(network=tgt.network.name, witness_type=tgt.witness_type)
+        sec.add_key(ik)
+        return w, tgt.import_key(ik.wif_key()).as_dict(), None
+    if op == 'Sign':
+        tgt.get_key()
+        tgt.utxos_update()
+        tx = tgt.send_to(tgt.get_key().address, 1000, broadcast=False)
+        sec.tx = tx
+        return w, [tx.as_dict(), tx.as_json(), repr(tx), captured(tx.info), tx.raw_hex(), tx.export()], None
+    if op == 'Reopen':
+        for x in [w] + list(w.cosigner):
+            x.session.close()
+        return Wallet(name, db_uri=uri), None, None
+    raise ValueError('op ' + op)
+
+
+def wallet_view_leaks(w, sec, leaks, tag, level=0):
+    """EVERY public-view entry point of a wallet (and of its cosigner wallets), scanned for every secret."""
+    def chk(what, f):
+        try:
+            v = f()
+        except Exception as e:
+            leaks.append('%s:%s-raised:%s:%s' % (tag, what, type(e).__name__, str(e)[:50].replace('|', '/')))
+            return
+        hit = sec.find(blob_of(v))
+        if hit:
+            leaks.append('%s:%s:%s' % (tag, what, hit))
+
+    multi = bool(w.multisig and w.cosigner)
+    chk('repr', lambda: [repr(w), str(w)])
+    chk('as_dict()', lambda: w.as_dict())
+    chk('as_json()', lambda: w.as_json())
+    chk('as_dict(include_private=False)', lambda: w.as_dict(include_private=False))
+    for d in (0, 3, 5):
+        chk('info(detail=%d)' % d, lambda: captured(lambda: w.info(detail=d)))
+    chk('wif()', lambda: w.wif())
+    chk('wif(is_private=False)', lambda: w.wif(is_private=False))
+    chk('keys(as_dict=True)', lambda: w.keys(as_dict=True))
+    chk('keys(as_dict=True,is_private=True)', lambda: w.keys(as_dict=True, is_private=True))
+    chk('keys_networks/accounts/addresses(as_dict=True)',
+        lambda: [w.keys_networks(as_dict=True), w.keys_accounts(as_dict=True), w.keys_addresses(as_dict=True),
+                 w.keys_address_payment(as_dict=True), w.keys_address_change(as_dict=True)])
+    chk('addresslist', lambda: w.addresslist())
+    chk('public_master()', lambda: [wk_graph(x) for x in aslist(w.public_master())])
+    chk('public_master(as_private=False)', lambda: [wk_graph(x) for x in aslist(w.public_master(as_private=False))])
+    chk('public_master(everything explicit)', lambda: [wk_graph(x) for x in aslist(w.public_master(
+        account_id=w.default_account_id, name='pm', as_private=False, witness_type=w.witness_type))] if not multi else None)
+    if level == 0:
+        def wl():
+            from bitcoinlib.wallets import wallets_list
+            return wallets_list(db_uri=w.db_uri, include_cosigners=True)
+        chk('wallets_list', wl)
+    chk('public_master().key()', lambda: [[hd_view_graph(k) for k in aslist(x.key())] for x in aslist(w.public_master())])
+    chk('public_master().public()', lambda: [wk_graph(x.public()) for x in aslist(w.public_master())])
+    nets = [n.name for n in w.networks()]
+    for n in nets:
+        try:
+            accs = w.accounts(network=n)
+        except Exception:
+            accs = [0]
+        for a in accs[:3]:
+            chk('public_master(account_id=%s,network=%s)' % (a, n),
+                lambda: [wk_graph(x) for x in aslist(w.public_master(account_id=a, network=n))])
+            chk('public_master(account_id=%s)' % a, lambda: [wk_graph(x) for x in aslist(w.public_master(account_id=a))])
+            chk('wif(account_id=%s)' % a, lambda: w.wif(account_id=a))
+    if not multi and w.main_key is not None:
+        if w.main_key.is_private and w.main_key.depth == 0 and w.scheme == 'bip32':
+            for wt2 in ('legacy', 'p2sh-segwit', 'segwit'):
+                if wt2 != w.witness_type and default_wt(w.network.name) == 'segwit':
+                    chk('public_master(witness_type=%s)' % wt2,
+                        lambda: [wk_graph(x) for x in aslist(w.public_master(witness_type=wt2))])
+        chk('main_key.public()', lambda: wk_graph(w.main_key.public()))
+        chk('main_key.as_dict()/repr', lambda: [w.main_key.as_dict(), repr(w.main_key), str(w.main_key)])
+        chk('main_key.key().public()', lambda: hd_view_graph(w.main_key.key().public()))
+        chk('main_key.key() default exports', lambda: [w.main_key.key().as_dict(), w.main_key.key().as_json(),
+                                                       repr(w.main_key.key()), str(w.main_key.key())])
+        if w.scheme == 'bip32' and w.main_key.is_private:
+            chk('main_key.key().public_master()', lambda: hd_view_graph(w.main_key.key().public_master()) if
+                w.main_key.depth == 0 else None)
+    # every wallet key: default exports and its public view
+    rows = w.keys(is_active=False)
+    for r in rows[:8] + rows[-2:]:
+        def one(r=r):
+            k = w.key(r.id)
+            return [k.as_dict(), repr(k), str(k), wk_graph(k.public())]
+        chk('key(%s)' % r.path, one)
+    if 'account\'' in w.key_path and not multi:
+        chk('account(0)', lambda: [w.account(0).as_dict(), repr(w.account(0)), wk_graph(w.account(0).public())])
+    chk('transactions', lambda: [[t.as_dict(), repr(t), captured(t.info)] for t in w.transactions(include_new=True)[:3]])
+    chk('transactions(as_dict)', lambda: w.transactions(include_new=True, as_dict=True)[:5])
+    chk('utxos', lambda: w.utxos()[:5])
+    if level == 0:
+        for i, c in enumerate(w.cosigner):
+            wallet_view_leaks(c, sec, leaks, '%s:cosigner%d' % (tag, i), level + 1)
+
+
+def do_wal(t):
+    conf, ops, seed, network, wt, flags = t[1:7]
+    w, sec, name, uri = make_conf_wallet(conf, seed, network, wt, flags)
+    toks = ['ok:-:%s:-' % wal_main_codes(w, sec)]
+    leaks = []
+    oplist = [] if ops == '-' else ops.split(',')
+    for i, op in enumerate(oplist):
+        where = '%d/%s' % (i + 1, op)
+        base = op.split('.')[-1]
+        val = ret = None
+        try:
+            w, val, ret = wal_apply(w, op, sec, name, uri)
+            status = 'ok'
+        except ValueError:
+            raise
+        except Exception as e:
+            status = 'err'
+            leaks.append('%s-raised:%s:%s' % (where, type(e).__name__, str(e)[:50].replace('|', '/')))
+        if status == 'ok' and base == 'Reopen':
+            wallet_secrets(w, sec)
+        if status == 'ok' and (base in WAL_OTHER_OPS or base == 'Keys'):
+            # deriving / signing may or may not parse the cached main / account key objects again (it depends on
+            # which rows exist already); the operation is made deterministic by parsing them here, which is what
+            # the model's LOther does
+            for c in (w.cosigner if (w.multisig and w.cosigner) else [w]):
+                c.main_key.key()
+                for x in aslist(c.public_master(as_private=True)):
+                    x.key()
+        taint = '-'
+        if status == 'ok' and base in WAL_EXPORT_OPS:
+            taint = 'S' if sec.find(blob_of(val)) else 'P'
+        rc = '-'
+        if status == 'ok' and ret is not None:
+            rc = '/'.join(''.join(code_of(x, a, sec, a in HANDLES) for a in WK_FIELDS) for x in ret)
+        toks.append('%s:%s:%s:%s' % (status, taint, wal_main_codes(w, sec), rc))
+        if status == 'ok' and (base in WAL_PUBLIC_OPS or base in WAL_OTHER_OPS):
+            hit = sec.find(blob_of(val)) if val is not None else None
+            if hit:
+                leaks.append('%s:%s' % (where, hit))
+            for x in (ret or []):
+                hit = sec.find(blob_of(wk_graph(x)))
+                if hit:
+                    leaks.append('%s:returned WalletKey:%s' % (where, hit))
+    wallet_view_leaks(w, sec, leaks, 'views')
+    # sensitivity control: the explicit private export of a wallet that holds a private key must be FOUND
+    control = 'n/a'
+    holders = [c for c in ([w] + list(w.cosigner)) if c.main_key is not None and c.main_key.is_private]
+    if holders:
+        hit = sec.find(blob_of([c.wif(is_private=True) for c in holders])) and \
+            sec.find(blob_of([wk_graph(x) for c in holders for x in aslist(c.public_master(as_private=True))]))
+        control = 'found' if hit else 'MISSED'
+    for x in [w] + list(w.cosigner):
+        x.session.close()
+    return ' '.join(toks) + ' ## control=' + control + ' | ' + (' | '.join(leaks) if leaks else '-')
+
+
 def do_dbfile(t):
     """create wallets on a FRESH sqlite file, close, scan the raw bytes.  With DB_FIELD_ENCRYPTION_KEY in the
     environment nothing may be found; without it the same scan must find the keys (sensitivity control)."""
     seed, network = t[1:3]
+    confs = t[3].split(',') if len(t) > 3 and t[3] != '-' else []
+    wt_extra = t[4] if len(t) > 4 else default_wt(network)
     import gc
     _wallet_n[0] += 1
     fn = 'c16_dbfile_%d_%d.sqlite' % (os.getpid(), _wallet_n[0])
@@ -588,16 +980,16 @@ def do_dbfile(t):
             os.remove(fn + ext)
     found = []
     sec_all = Secrets()
+    from bitcoinlib.wallets import Wallet
     for kind in ('private', 'single', 'watch'):
         w, sec, master = make_wallet(kind, hashlib.sha256((seed + kind).encode()).hexdigest(), network, uri=db_uri(fn))
         if kind != 'watch':
-            sec_all.needles.update(sec.needles)
+            sec_all.merge(sec)
         # reopening must give the keys back (encryption is transparent to the API)
         if kind == 'private':
             name = w.name
             x1 = w.wif(is_private=True)
             w.session.close()
-            from bitcoinlib.wallets import Wallet
             w2 = Wallet(name, db_uri=db_uri(fn))
             if w2.wif(is_private=True) != x1:
                 found.append('reopen-differs')
@@ -606,12 +998,36 @@ def do_dbfile(t):
         w.session.close()
         w._engine.dispose() if getattr(w, '_engine', None) else None
         del w
+    # further configurations in the same file: account-level private keys, multisig with own private keys ...
+    for conf in confs:
+        w, sec, name, uri = make_conf_wallet(conf, hashlib.sha256((seed + conf).encode()).hexdigest()[:32], network,
+                                             wt_extra, '-', uri=db_uri(fn))
+        sec_all.merge(sec)
+        w.get_key()
+        holders = [c for c in ([w] + list(w.cosigner)) if c.main_key is not None and c.main_key.is_private]
+        x1 = [c.wif(is_private=True) for c in holders]
+        w.public_master()
+        for x in [w] + list(w.cosigner):
+            x.session.close()
+        w2 = Wallet(name, db_uri=uri)
+        h2 = [c for c in ([w2] + list(w2.cosigner)) if c.main_key is not None and c.main_key.is_private]
+        if [c.wif(is_private=True) for c in h2] != x1:
+            found.append('reopen-differs:' + conf)
+        for x in [w2] + list(w2.cosigner):
+            x.session.close()
+            x._engine.dispose() if getattr(x, '_engine', None) else None
+        for x in [w] + list(w.cosigner):
+            x._engine.dispose() if getattr(x, '_engine', None) else None
+        del w, w2, holders, h2
     gc.collect()
     blob = b''
     for ext in ('', '-journal', '-wal', '-shm'):
         if os.path.exists(fn + ext):
             blob += open(fn + ext, 'rb').read()
     hits = sorted({label for nd, label in sec_all.needles.items() if nd in blob})
+    if not hits:
+        h = sec_all.find(blob)           # base58 tokens with version bytes the tables do not list
+        hits = [h] if h else []
     enc = bool(os.environ.get('DB_FIELD_ENCRYPTION_KEY') or os.environ.get('DB_FIELD_ENCRYPTION_PASSWORD'))
     return 'ok enc=%d bytes=%d hits=%s%s' % (enc, len(blob), ','.join(h.split('/')[0] for h in hits) or '-',
                                                (' ' + ','.join(found)) if found else '')
@@ -628,7 +1044,7 @@ def do_dbfile_enc(t):
         env['DB_FIELD_ENCRYPTION_KEY'] = hashlib.sha256(('k' + t[2]).encode()).hexdigest()
     else:
         env['DB_FIELD_ENCRYPTION_PASSWORD'] = 'verif ' + t[2][:8]
-    p = subprocess.run([sys.executable, os.path.abspath(__file__)], input='dbfile %s %s\n' % (t[2], t[3]),
+    p = subprocess.run([sys.executable, os.path.abspath(__file__)], input='dbfile %s\n' % ' '.join(t[2:]),
                        stdout=subprocess.PIPE, stderr=subprocess.PIPE, text=True, env=env, timeout=600)
     lines = p.stdout.strip().split('\n')
     return lines[-1] if lines and lines[-1] else 'CRASH child: ' + p.stderr[-200:].replace('\n', ' ')
@@ -645,21 +1061,51 @@ def dispatch(t):
         return do_wallet(t)
     if t[0] == 'dbfile':
         return do_dbfile(t)
+    if t[0] == 'wal':
+        return do_wal(t)
     return 'BADREQ'
 
 
+def answer(line):
+    toks = line.strip().split(' ')
+    try:
+        return dispatch(toks)
+    except Exception as e:
+        import traceback
+        return 'CRASH %s: %s @ %s' % (type(e).__name__, str(e)[:120].replace('\n', ' '),
+                                      traceback.format_exc().strip().split('\n')[-3].strip()[:100])
+
+
+POOLED = ('wal', 'wallet', 'wk', 'dbfile', 'dbfile-enc')
+
+
 def main():
+    """one answer line per request line, in order.  Requests are independent of each other (every wallet request
+    builds its own wallets in a sqlite file of its own process), so the wallet-level requests of a batch are
+    spread over worker processes; VERIF_C16_WORKERS=1 switches that off."""
     out = sys.stdout
-    for line in sys.stdin:
-        toks = line.strip().split(' ')
-        try:
-            r = dispatch(toks)
-        except Exception as e:
-            import traceback
-            r = 'CRASH %s: %s @ %s' % (type(e).__name__, str(e)[:120].replace('\n', ' '),
-                                       traceback.format_exc().strip().split('\n')[-3].strip()[:100])
-        out.write(r + '\n')
-        out.flush()
+    lines = sys.stdin.read().split('\n')
+    if lines and lines[-1] == '':
+        lines.pop()
+    workers = int(os.environ.get('VERIF_C16_WORKERS', '6'))
+    heavy = [i for i, l in enumerate(lines) if l.split(' ', 1)[0] in POOLED]
+    res = {}
+    if workers > 1 and len(heavy) >= 8:
+        import multiprocessing
+        ctx = multiprocessing.get_context('fork')
+        with ctx.Pool(workers) as pool:
+            it = pool.imap(answer, [lines[i] for i in heavy], chunksize=1)
+            # the key histories run here while the workers are busy
+            for i, l in enumerate(lines):
+                if i not in res and l.split(' ', 1)[0] not in POOLED:
+                    res[i] = answer(l)
+            for i, r in zip(heavy, it):
+                res[i] = r
+    for i, l in enumerate(lines):
+        if i not in res:
+            res[i] = answer(l)
+        out.write(res[i] + '\n')
+    out.flush()
 
 
 if __name__ == '__main__':
